@@ -482,8 +482,13 @@ def clean_decision_table(ctx: Ctx, rule: str, all_owners: bool = False) -> None:
              and isinstance(n.left.slice, ast.Constant) and n.left.slice.value == 0 and isinstance(n.ops[0], ast.Eq)]
     has_else_false = any(isinstance(s, ast.Assign) and isinstance(s.value, ast.Constant) and s.value.value is False for s in rl.orelse)
     has_break = any(isinstance(n, ast.Break) for n in ast.walk(rl))
-    ok_rev = modes == ["unset_mode_images", "unset_mode_vms"] and len(cmp_f) == 2 and has_else_false and has_break
-    ctx.record(rule + "r", "TABLE", fref, "reversible iff some object has unset_mode(_images|_vms)[0] == 'f'; no objects -> not reversible",
+    exact = sorted(ast.unparse(c.left) for c in cmp_f) == sorted([
+        "object_params.get('unset_mode_images', object_params['unset_mode'])[0]",
+        "object_params.get('unset_mode_vms', object_params['unset_mode'])[0]"])
+    op_def = [s_ for s_ in ast.walk(rl) if isinstance(s_, ast.Assign) and ast.unparse(s_.targets[0]) == "object_params"]
+    exact = exact and len(op_def) == 1 and ast.unparse(op_def[0].value) == f"{rl.target.id}.object_typed_params(self.params)"
+    ok_rev = modes == ["unset_mode_images", "unset_mode_vms"] and len(cmp_f) == 2 and has_else_false and has_break and exact
+    ctx.record(rule + "r", "TABLE", fref, "reversible iff some object has unset_mode_images or unset_mode_vms (each falling back to the object's generic unset_mode) starting with 'f'; no objects -> not reversible",
                ok_rev, {"modes": modes, "first_letter_tests": len(cmp_f)},
                "" if ok_rev else "the reversibility test of default_clean_decision changed")
     after = fn.node.body[fn.node.body.index(rl) + 1:]
